@@ -407,12 +407,17 @@ class ProdParser(object):
                     if next_[1] in until:
                         # omit S as e.g. ``,`` has been found
                         yield next_
+                        break
                     elif next_[0] == self.types.COMMENT:
                         # pass COMMENT
                         yield next_
                     else:
                         yield token
                         yield next_
+                        # the token after the S has been seen: normal mode
+                        # again (else the S before a later ``/`` or ``,``
+                        # inside a following calc() would be removed too)
+                        break
 
             elif token[0] == self.types.COMMENT:
                 # pass COMMENT
